@@ -316,6 +316,10 @@ def run(ch, render=False):
                         break
                     item = next(gen)
                     got.append(item)
+                    if raw is not None:
+                        raw.eof_reads = 0        # progress: the end-of-stream poll budget counts polls WITHOUT progress
+                    if pipe is not None:
+                        pipe.eof_reads = 0
                     w.ev("consumer", "item")
             except StopIteration:
                 stopped = True
